@@ -185,11 +185,13 @@ class Project:
             from .inline import inline_new_helpers, remove_unreferenced
 
             done = []
-            for rel, src, tree in parsed:
+            for idx_, (rel, src, tree) in enumerate(parsed):
                 known = inventory.get(rel)
                 if known is None:
                     continue
                 tree2, expanded, refused = inline_new_helpers(tree, set(known))
+                if tree2 is not tree:
+                    parsed[idx_] = (rel, src, tree2)  # the pass works on a copy
                 if expanded or refused:
                     self.inlined[rel] = {"expanded": expanded, "kept_as_calls": refused}
                     if expanded:
@@ -215,7 +217,10 @@ class Project:
                     hosts = [(st.name, st)] if isinstance(st, (ast.FunctionDef, ast.AsyncFunctionDef)) else [(f"{st.name}.{x.name}", x) for x in st.body if isinstance(x, (ast.FunctionDef, ast.AsyncFunctionDef))] if isinstance(st, ast.ClassDef) else []
                     for q, fn in hosts:
                         if q in ref:
-                            names = substitute_new_aliases(fn, set(ref[q]), set(_INVENTORY_SHAPES.get(rel, {}).get(q, [])))
+                            try:
+                                names = substitute_new_aliases(fn, set(ref[q]), set(_INVENTORY_SHAPES.get(rel, {}).get(q, [])))
+                            except (Exception, RecursionError):  # noqa: BLE001 -- the function is analysed as written
+                                names = []
                             if names:
                                 self.inlined.setdefault(rel, {}).setdefault("aliases", {})[q] = names
         for rel, src, tree in parsed:
